@@ -52,14 +52,15 @@ Theorem eval_order_left_failure_stops : forall f o a b sc w r w',
 Proof. exact eval_math_left_fails. Qed.
 Print Assumptions eval_order_left_failure_stops.
 
+(* e? never yields an error, except that termination is never swallowed (C13) *)
 Theorem suppress_total : forall f a sc w e w',
-  eval (S f) (ESuppress a) sc w <> (Err e, w').
+  eval (S f) (ESuppress a) sc w = (Err e, w') -> e = ETerminated.
 Proof. exact eval_suppress_total. Qed.
 Print Assumptions suppress_total.
 
 Theorem optional_chaining_source : forall f src s rest sc w e w',
   eval f src sc w = (Err e, w') ->
-  eval (S f) (EMember src (Seg true s :: rest)) sc w = (Ok VNone, w') /\
+  (e <> ETerminated -> eval (S f) (EMember src (Seg true s :: rest)) sc w = (Ok VNone, w')) /\
   eval (S f) (EMember src (Seg false s :: rest)) sc w = (Err e, w').
 Proof.
   exact (fun f src s rest sc w e w' H =>
